@@ -75,12 +75,13 @@ def generate(rng, tier):
         qid += 1
     faults = {"max_delay_us": rng.choice([0, 1000, 50000]), "loop_delay_us": rng.choice([0, 200, 1000]),
               "dup_p": rng.choice([0.0, 0.1]), "grid_p": 0.0}
-    return {"ops": ops, "faults": faults, "end": round(t + 3.0, 3), "svcs": svcs}
+    return {"timer_slop_us": rng.choice([0, 0, 0.1]), "ops": ops, "faults": faults, "end": round(t + 3.0, 3), "svcs": svcs}
 
 
 def execute(scenario, seed, overrides=None):
     out = runner.Outcome()
-    w = World(seed, FaultConfig(**scenario.get("faults", {})), overrides)
+    w = World(seed, FaultConfig(**scenario.get("faults", {})), overrides,
+              timer_slop=scenario.get("timer_slop_us", 0) / 1e6)
     stats = {"queries": 0, "answered": 0, "legacy": 0, "qu_unicast_only": 0, "qu_multicast_instead": 0, "probes": 0,
              "unicast_dst_queries": 0, "mcast_responses_checked": 0, "v6_queries": 0}
     try:
